@@ -20,6 +20,16 @@ from .catalog import MISSING
 from .session import ModelState, make_scratch
 
 
+def clock():
+    """Budget clock of the E4 checks: CPU seconds of this shard process (all threads). Budgets only bound how
+    much is explored, never a verdict; counting CPU time instead of wall-clock time keeps the explored set
+    (nearly) the same on a loaded machine - the run just takes longer. A separate, generous wall-clock
+    watchdog (SHARD_TIMEOUT) turns a hung shard into an inconclusive run."""
+    import time
+
+    return time.process_time()
+
+
 class ProgramRunner:
     def __init__(self, prog, watch_fs=False):
         self.prog = prog
@@ -241,7 +251,7 @@ def describe_history(ops):
 
 # --------------------------------------------------------------------------- exploration
 def explore(prog, runner, rng, tier, sig_base, check_extra=None, budget_runs=None,
-            policies=("sweep",), per_file=False, deadline=None, verdict=None):
+            policies=("sweep",), per_file=False, deadline=None, verdict=None, victims=None):
     """Run ``prog`` under many schedules and check every execution.
 
     Returns dict(runs, schedules(set of hashes), violations[list], mid_op_switch_runs,
@@ -256,7 +266,7 @@ def explore(prog, runner, rng, tier, sig_base, check_extra=None, budget_runs=Non
     import time as _time
 
     def late():
-        if deadline is not None and _time.time() > deadline:
+        if deadline is not None and clock() > deadline:
             out["cut_by_deadline"] = True
             return True
         return False
@@ -320,7 +330,7 @@ def explore(prog, runner, rng, tier, sig_base, check_extra=None, budget_runs=Non
         return sorted(ks)
 
     if "sweep" in policies:
-        for victim in range(nthreads):
+        for victim in (range(nthreads) if victims is None else victims):
             orders = [[victim] + [t for t in range(nthreads) if t != victim]]
             if nthreads == 3:
                 orders.append([victim] + [t for t in reversed(range(nthreads)) if t != victim])
